@@ -15,6 +15,10 @@ Modelling decisions (all conservative):
     kinds are unequal, containers through the uninterpreted predicate `dyn_py_eq` (only reflexivity is known).
   * ordering of Dyn values (sort keys): numbers numerically, strings lexicographically, anything else is a
     TypeError in exec mode and an uninterpreted relation in spec mode.
+  * dict keys are encoded as integer *key codes* (`DKey`): z3 needs seconds to build models of String-indexed arrays
+    (0.05 s with Int indices).  `dyn_skey : String -> Int` / `dyn_kstr : Int -> String` are assumed to be mutually
+    inverse bijections (strings are countable), string constants get fixed small codes.  A dict view is a
+    VMap[DKey, Dyn]; DKey wraps back to a python string (`dyn_kstr(code)`), so iterating keys yields strings.
   * well-formedness (`wf`): the datatype's carrier also contains ill-formed terms (negative lengths), so no
     universally quantified axiom is used; instead, for every Dyn term the interpretation looks at (inputs, json.loads
     results, elements read out of them) it assumes  len(list) >= 0, len(dict) >= 0, len(dict) == 0 <=> no key.
@@ -33,7 +37,7 @@ _SRC = """
   (jreal (jr Real))
   (jstr (js String))
   (jlist (larr (Array Int JV)) (ln Int))
-  (jdict (ddom (Array String Bool)) (dval (Array String JV)) (dcard Int))
+  (jdict (ddom (Array Int Bool)) (dval (Array Int JV)) (dcard Int))
 )))
 (declare-const jv_probe JV)
 (assert (= jv_probe jv_probe))
@@ -45,6 +49,68 @@ jb, ji, jr, js = JV.accessor(1, 0), JV.accessor(2, 0), JV.accessor(3, 0), JV.acc
 larr, ln = JV.accessor(5, 0), JV.accessor(5, 1)
 ddom, dval, dcard = JV.accessor(6, 0), JV.accessor(6, 1), JV.accessor(6, 2)
 JNULL = jnull()
+
+
+skey = z3.Function("dyn_skey", z3.StringSort(), z3.IntSort())
+kstr = z3.Function("dyn_kstr", z3.IntSort(), z3.StringSort())
+CODES = {}          # string constant -> key code (process wide, assigned at first use)
+CURRENT_I = None    # the interpreter of the path being executed (set by Interp.__init__)
+
+
+class _TDKey(T):
+    """key of a Dyn dict: an integer code standing for a python string"""
+    name = "DKey"
+
+    def sort(self):
+        return z3.IntSort()
+
+    def wrap(self, e):
+        return VStr(kstr(e))
+
+
+TDKey = _TDKey()
+
+
+def _key_axioms(p):
+    if getattr(p, "_dyn_key_axioms", False):
+        return
+    p._dyn_key_axioms = True
+    x = z3.String("dk_s")
+    i = z3.Int("dk_i")
+    p.assume_bg(z3.ForAll([x], kstr(skey(x)) == x, patterns=[skey(x)]))
+    p.assume_bg(z3.ForAll([i], skey(kstr(i)) == i, patterns=[kstr(i)]))
+    if CURRENT_I is not None:
+        CURRENT_I.ver.note_assumption("Dyn dict keys are integer codes: dyn_skey/dyn_kstr are mutually inverse bijections "
+                                      "between strings and integers (string constants have fixed codes)")
+
+
+def key_code(v):
+    """z3 Int term: the key code of a python string value (TypeError for non-strings: never a key of a Dyn dict)"""
+    if not isinstance(v, VStr):
+        raise TypeError("key of a Dyn dict must be a string")
+    p = CURRENT_I.path if CURRENT_I is not None else None
+    if p is not None:
+        _key_axioms(p)
+    c = v.concrete()
+    if c is None:
+        return skey(v.e)
+    if c not in CODES:
+        CODES[c] = len(CODES) + 1
+    code = z3.IntVal(CODES[c])
+    if p is not None:
+        done = getattr(p, "_dyn_key_consts", None)
+        if done is None:
+            done = p._dyn_key_consts = set()
+        if c not in done:
+            done.add(c)
+            p.assume(z3.And(skey(z3.StringVal(c)) == code, kstr(code) == z3.StringVal(c)))
+    return code
+
+
+def key_seq_to_str(keys):
+    """a listing of key codes (VSeq of DKey) as the list of python strings"""
+    i = z3.Int("ks_i")
+    return VSeq(z3.Lambda([i], kstr(z3.Select(keys.arr, i))), keys.n, TStr, "list")
 
 
 class _TDyn(T):
@@ -103,18 +169,24 @@ def to_dyn(v):
         i = z3.Int("td_i")
         return jlist(z3.Lambda([i], to_dyn(v.et.wrap(z3.Select(v.arr, i)))), v.n)
     if isinstance(v, VMap):
+        k = z3.Int("td_k")
+        if v.kt is TDKey:
+            if v.vt == TDyn:
+                return jdict(v.dom, v.val, v.card)
+            return jdict(v.dom, z3.Lambda([k], to_dyn(v.vt.wrap(z3.Select(v.val, k)))), v.card)
         if v.kt is not TStr:
             raise TypeError("dict with non-string keys is not a JSON-like value")
-        if v.vt == TDyn:
-            return jdict(v.dom, v.val, v.card)
-        k = z3.String("td_k")
-        return jdict(v.dom, z3.Lambda([k], to_dyn(v.vt.wrap(z3.Select(v.val, k)))), v.card)
+        if CURRENT_I is not None:
+            _key_axioms(CURRENT_I.path)
+        return jdict(z3.Lambda([k], z3.Select(v.dom, kstr(k))),
+                     z3.Lambda([k], to_dyn(v.vt.wrap(z3.Select(v.val, kstr(k))))), v.card)
     if isinstance(v, VDictRec):
-        dom = z3.K(z3.StringSort(), z3.BoolVal(False))
-        val = z3.K(z3.StringSort(), JNULL)
+        dom = z3.K(z3.IntSort(), z3.BoolVal(False))
+        val = z3.K(z3.IntSort(), JNULL)
         for k2, x in v.fields.items():
-            dom = z3.Store(dom, z3.StringVal(k2), z3.BoolVal(True))
-            val = z3.Store(val, z3.StringVal(k2), to_dyn(x))
+            kc = key_code(VStr(k2))
+            dom = z3.Store(dom, kc, z3.BoolVal(True))
+            val = z3.Store(val, kc, to_dyn(x))
         return jdict(dom, val, z3.IntVal(len(v.fields)))
     raise TypeError("cannot encode %s as Dyn" % type(v).__name__)
 
@@ -125,18 +197,25 @@ def wf(I, e):
     p = I.path
     seen = getattr(p, "_dyn_wf", None)
     if seen is None:
-        seen = p._dyn_wf = set()
+        seen = p._dyn_wf = {}
         I.ver.note_assumption("Dyn values are well-formed JSON-like values: len(list) >= 0, len(dict) >= 0, "
-                              "len(dict) == 0 iff it has no key; floats are reals (no NaN/inf)")
+                              "a dict with a key has len >= 1; floats are reals (no NaN/inf)")
+    if I.spec and (I.q_ctx or I.binders):
+        return                # inside a quantifier: a fact about the bound constant would be useless
     if e.get_id() in seen:
         return
-    seen.add(e.get_id())
+    seen[e.get_id()] = e      # keeps the term alive: z3 recycles ids of freed terms
     if z3.is_app(e) and e.decl().kind() == z3.Z3_OP_DT_CONSTRUCTOR and e.decl().name() not in ("jlist", "jdict"):
         return
-    k = z3.String("dy_k")
     p.assume(z3.Implies(is_list(e), ln(e) >= 0))
-    p.assume(z3.Implies(is_dict(e), z3.And(dcard(e) >= 0,
-                                           (dcard(e) == 0) == z3.ForAll([k], z3.Not(z3.Select(ddom(e), k))))))
+    p.assume(z3.Implies(is_dict(e), dcard(e) >= 0))
+
+
+def key_fact(I, m, kk):
+    """reading key kk of a dict view of a Dyn value: a dict that has the key is not empty (the instance of
+    `len(d) == 0 iff no key` that truthiness tests need; kept quantifier free)"""
+    if getattr(m, "from_dyn", False) and not (I.spec and (I.q_ctx or I.binders)):
+        I.path.assume(z3.Implies(z3.Select(m.dom, kk), m.card >= 1))
 
 
 class _Frozen:
@@ -153,8 +232,9 @@ class _Frozen:
 
 def _mk_view(I, e, tag):
     if tag == "dict":
-        v = VMap(ddom(e), dval(e), dcard(e), TStr, TDyn)
+        v = VMap(ddom(e), dval(e), dcard(e), TDKey, TDyn)
         v.origin = (_Frozen(I), None)
+        v.from_dyn = True
         return v
     if tag == "list":
         v = VSeq(larr(e), ln(e), TDyn, "list")
@@ -530,24 +610,28 @@ def _cz(e, model, depth):
                 if str(k) not in seen:
                     seen.add(str(k))
                     keys.append(k)
-            walk_array(ev(ddom(e)), z3.StringSort(), add)
-            walk_array(ev(dval(e)), z3.StringSort(), add)
-            for kk in KNOWN_KEYS:
-                add(z3.StringVal(kk))
+            walk_array(ev(ddom(e)), z3.IntSort(), add)
+            walk_array(ev(dval(e)), z3.IntSort(), add)
+            rev = {}
+            for kc, code in CODES.items():
+                rev[code] = kc
+                add(z3.IntVal(code))
             items = []
-            for k in keys[:40]:
+            for k in keys[:60]:
                 if z3.is_true(ev(z3.Select(ddom(e), k))):
-                    ks = ev(k)
-                    items.append([ks.as_string() if z3.is_string_value(ks) else str(ks),
-                                  _cz(ev(z3.Select(dval(e), k)), model, depth + 1)])
+                    kv = ev(k)
+                    code = kv.as_long() if z3.is_int_value(kv) else None
+                    if code in rev:
+                        name = rev[code]
+                    else:
+                        ks = ev(kstr(k))
+                        name = ks.as_string() if z3.is_string_value(ks) else "key#%s" % kv
+                    items.append([name, _cz(ev(z3.Select(dval(e), k)), model, depth + 1)])
             c = ev(dcard(e))
             return {"$map": items, "card": c.as_long() if z3.is_int_value(c) else None}
     except Exception as ex:  # pragma: no cover
         return {"$dyn_error": repr(ex)}
     return {"$dyn": str(e)[:200]}
-
-
-KNOWN_KEYS = set()   # string constants used as dict keys during interpretation (helps decoding counter-models)
 
 
 from .core import Unsupported  # noqa: E402  (core imports values only)
